@@ -139,9 +139,10 @@ class SimComp(TimeComponent):
         s = self.spec
         for i in s["inputs"]:
             if i.get("info_at_init", True):
-                self.inputs.add(name=i["name"], time=self.time, grid=NoGrid(), units=i.get("units"))
+                self.inputs.add(name=i["name"], time=self.time, grid=NoGrid(), units=i.get("units"),
+                                static=bool(i.get("static")))
             else:
-                self.inputs.add(name=i["name"])
+                self.inputs.add(name=i["name"], static=bool(i.get("static")))
         for o in s["outputs"]:
             if o.get("info_at_init", True):
                 self.outputs.add(name=o["name"], time=self.time, grid=NoGrid(), units=o.get("units", ""))
@@ -309,7 +310,38 @@ def make_wsum(spec, world):
     return comp
 
 
-KINDS = {"sim": SimComp, "pull": SimPull, "sink": SimSink, "wsum": make_wsum}
+class SimStatic(Component):
+    """Component without time step whose outputs are static (one publication, valid for every time)."""
+
+    def __init__(self, spec, world):
+        super().__init__()
+        self.spec = spec
+        self.world = world
+        self._name = spec["name"]
+        self.pulls = {}
+
+    def _initialize(self):
+        # the composition start is declared (an unset time would be taken from whichever consumer exchanges
+        # first, and two outputs could end up with different 'starting times')
+        t0 = dt(self.world.t0) if self.world.t0 is not None else None
+        for o in self.spec["outputs"]:
+            self.outputs.add(name=o["name"], time=t0, grid=NoGrid(), units=o.get("units", ""), static=True)
+        self.create_connector()
+
+    def _connect(self, start_time):
+        self.try_connect(start_time, push_data={o["name"]: float(o["base"]) for o in self.spec["outputs"]})
+
+    def _validate(self):
+        pass
+
+    def _update(self):
+        pass
+
+    def _finalize(self):
+        pass
+
+
+KINDS = {"sim": SimComp, "pull": SimPull, "sink": SimSink, "wsum": make_wsum, "static": SimStatic}
 
 
 # ----------------------------------------------------------------------------- world
